@@ -761,6 +761,17 @@ func reflectCompare(a, b reflect.Value) bool {
 	if a.Kind() == reflect.String {
 		return a.String() < b.String()
 	}
+	if a.CanUint() {
+		return a.Uint() < b.Uint()
+	}
+	if a.Kind() == reflect.Bool {
+		return !a.Bool() && b.Bool()
+	}
+	if ac, ok := a.Interface().(val.Comparable); ok {
+		if bc, ok := b.Interface().(val.Comparable); ok {
+			return ac.Compare(bc) < 0
+		}
+	}
 	panic(fmt.Sprintf("cannot compare %s. you must set comparator or implement your own list handler", a.Type()))
 }
 
